@@ -72,6 +72,15 @@ class Walker:
 
     def fail(self, prop, kind, msg):
         self.fails.append("%s/%s: %s" % (prop, kind, msg))
+        if (prop, kind) in (("C06", "callback-after-remove"), ("C07", "callback-while-disabled")):
+            # C01: a callback runs only while its source is inserted and enabled (the latitude for a source that removed or disabled
+            # ITSELF is already applied by the rule that produced this failure)
+            self.fails.append("C01/not-inserted-and-enabled: %s" % msg)
+        if (prop, kind) == ("C07", "callback-while-disabled"):
+            for h in sorted(getattr(self, "disabled_inside", ())):
+                if ("source %d " % h) in msg:
+                    self.fails.append("C08/self-disable-without-effect: disable() of source %d was called from inside its own callback and returned Ok "
+                                      "(deferred), yet after that event's processing: %s" % (h, msg))
         if prop == "C06" and kind in ("callback-after-remove", "token-alive", "not-released"):
             # the same failure is a C08 failure when the remove() was issued from inside a callback / idle: it did not have the effect
             # it would have had outside a dispatch
@@ -235,6 +244,7 @@ class Walker:
             if res == 0:
                 self.live.add(h)
                 self.user_disp.add(h)
+                self.peak_live = max(getattr(self, "peak_live", 0), len(self.live))
                 if len(ws) > 4:
                     self.key[h] = int(ws[4])
                 sp = self.spec.get(h)
@@ -265,6 +275,8 @@ class Walker:
                 self.fail("C06", "token-alive", "disable() with the token of removed source %d returned %d instead of InvalidToken" % (h, res))
             if res == 0 and h in self.live:
                 if insider:
+                    self.disabled_inside = getattr(self, "disabled_inside", set())
+                    self.disabled_inside.add(h)
                     self.pending_self.append(("disabled", h))
                 else:
                     self.disabled.add(h)
@@ -287,6 +299,7 @@ class Walker:
                     self.double_enabled.add(h)
                 else:
                     self.reenabled[h] = self.disp_no      # enabled again after a disable(): what was ready must now be delivered (C07)
+                getattr(self, "disabled_inside", set()).discard(h)
                 self.disabled.discard(h)
                 self.updated_while_disabled.discard(h)
                 if h in self.timer and self.timer[h]["dl"] is not None:
@@ -543,6 +556,18 @@ class Walker:
             if tag == "8":
                 if ws[1] != "0":
                     self.fail("C09", "pending-left", "a post action (%s) is still pending after the dispatch finished" % ws[1])
+                continue
+            if tag == "12":
+                self.slot_lines = getattr(self, "slot_lines", 0) + 1
+                continue
+            if tag == "13":
+                # end of the slot dump of one T command: vacated slots are handed out again (lowest first), so the slot vector never
+                # grows beyond the largest number of sources that were inserted at one time, plus one for a rejected insertion that
+                # found no vacant slot (C15: no slot is leaked by a failed insertion)
+                n, self.slot_lines = getattr(self, "slot_lines", 0), 0
+                if self.failed_insert and n > getattr(self, "peak_live", 0) + 1:
+                    self.fail("C15", "slot-leak", "the loop holds %d source slots although at most %d sources were ever inserted at one time: "
+                              "the slots of rejected insertions (%s) were not handed out again" % (n, getattr(self, "peak_live", 0), sorted(self.failed_insert)))
                 continue
             if tag == "14":
                 self.check_wheel(ws[1:])
